@@ -102,7 +102,7 @@ class _V(Val):
 
     def __init__(self, kind, sd, *a):
         self.kind, self.sd, self.a = kind, sd, a
-        self.ty = TEmpty("view:" + kind)
+        self.ty = THelper("view:" + kind)
 
 
 def _fld(st, sd, name):
@@ -271,7 +271,7 @@ class SDModel(ObjModel):
                                                     z3.And(0 <= pos(b), pos(b) < n, LI.at(res.t)[pos(b)] == b))))
                 return res
             if meth == "nodes":
-                return _V("nodes", sd)
+                return E._RangeIter(z3.IntVal(0), K)      # ids are 0..K-1 (I-ids); iteration order = insertion order
             if meth == "add_node":
                 i = args[0].t
                 eng.oblige(st, f"add_node.fresh_id@{node.lineno}", i == K, node.lineno, kind="safety")
